@@ -405,6 +405,62 @@ def _run_cases(ctx, rng, state, ModulusPack, Message, SSHException, kex_gex_mod,
             ctx.disagree("get_modulus", case, replies[i], res)
         _judge(ctx, case, pack, triple, got, "get_modulus")
 
+    # ---------------------------------------------------------------- (c2) sequences of requests on ONE pack object
+    seqs = []
+    for i in range(n_direct // 6):
+        keys = gen_pool(rng, big=(rng.random() < 0.4))
+        rng.shuffle(keys)
+        pack = {b: [(rng.choice([2, 5]), rng.randrange(1, 1 << 20) * 2 + 1) for _ in range(rng.randrange(1, 3))]
+                for b in keys}
+        reqs_ = []
+        base = gen_triple(rng, sorted(pack))
+        for j in range(rng.randrange(2, 6)):
+            r = rng.random()
+            if j and r < 0.5:        # same prefer/max, other min (and the like): related requests
+                t = list(base)
+                t[rng.randrange(3)] = gen_triple(rng, sorted(pack))[rng.randrange(3)]
+                t = tuple(t)
+            elif j and r < 0.65:
+                t = base              # the very same request again
+            else:
+                t = base = gen_triple(rng, sorted(pack))
+            reqs_.append((t, rng.randrange(0, 50)))
+        if i == 0:
+            pack = {1024: [(2, 11)], 8192: [(2, 13)]}
+            reqs_ = [((2048, 2048, 4096), 0), ((1024, 2048, 4096), 0), ((2048, 2048, 4096), 1)]
+        seqs.append((pack, reqs_))
+    replies = ctx.driver("C43", ["seq %s %s" % (dump_pack(p), ";".join("%d,%d,%d,%d" % (t + (k,)) for t, k in rq))
+                                 for p, rq in seqs])
+    for i, (pack, reqs_) in enumerate(seqs):
+        mp = ModulusPack()
+        mp.pack = {b: list(v) for b, v in pack.items()}
+        before = {b: list(v) for b, v in mp.pack.items()}
+        outs = []
+        case = {"pack_sizes": list(pack), "requests_on_one_object": [list(t) for t, _ in reqs_]}
+        for j, (t, k) in enumerate(reqs_):
+            state["k"] = k
+            try:
+                res, got = _get(mp, t, SSHException)
+            except Exception as e:
+                ctx.fail("get-modulus-escaped:" + exc_site(e), dict(case, at_request=j), repr(e))
+                res, got = "raise", None
+            outs.append(res)
+            # oracle: each answer judged on its own request, whatever was asked before
+            _judge(ctx, dict(case, at_request=j, request=list(t)), pack, t, got, "get_modulus-sequence")
+            # ... and equal to what a fresh object answers
+            fresh = ModulusPack()
+            fresh.pack = {b: list(v) for b, v in pack.items()}
+            state["k"] = k
+            if _get(fresh, t, SSHException)[0] != res:
+                ctx.fail("get_modulus-sequence:answer-depends-on-earlier-requests", dict(case, at_request=j, request=list(t)),
+                         "same object answered %s, a fresh ModulusPack answers %s" % (res, _get(fresh, t, SSHException)[0]))
+        if mp.pack != before:
+            ctx.fail("get_modulus-sequence:pack-changed", case, "get_modulus modified self.pack")
+        ctx.case(("seq", tuple(pack), tuple(t for t, _ in reqs_)), len(pack) >= 2)
+        ctx.dist("sequence-of-requests")
+        if replies is not None and replies[i] != " | ".join(outs):
+            ctx.disagree("get_modulus x n on one pack", case, replies[i], " | ".join(outs))
+
     # ---------------------------------------------------------------- (d) KexGex server path, all kinds of wire triples
     class FakeTransport:
         server_mode = True
@@ -514,7 +570,9 @@ META = {
               "(pickSize_eq_generated); KexGex path for every wire triple: the triple handed on is ordered, "
               "prefer clamped into [1024, 8192] (gexTriple_spec, gexTripleOld_spec, gexTriple_id) and the answer "
               "obeys the statement for it (gex_request_statement), with the pre-fix first pass too "
-              "(gex_unaffected_by_fix, old_first_pass_witness). Tied by byte-exact differential runs."),
+              "(gex_unaffected_by_fix, old_first_pass_witness); every answer in a history of requests on one object is "
+              "the one-shot answer to its own request and the object is unchanged (getSession_spec). Tied by byte-exact "
+              "differential runs, sequences of requests on one object included."),
     "note": ("Trusted: Lean kernel + 3 standard axioms; pv/lib_primes.py (AST -> Lean for a whitelisted statement/"
              "expression subset; anything else is reported as a broken tie); the harness; Python int()/split()/strip() "
              "modelled for ASCII lines only ('\\n' / '\\r\\n' line ends); int.bit_length = floor(log2)+1. "
